@@ -59,6 +59,8 @@ func runC19(c *eng.Ctx) {
 	stateMutexReleasedWhenAStageHookPanics(c)
 	responseErrorAlwaysExamined(c)
 	stagePoolsAreDistinct(c)
+	rejectedTaskIsReported(c)
+	everyReceiverIsAnswered(c)
 
 	// ---- 1. children registered before the parent completes -----------------------------------
 	c.Rule("ORDER", plT+".executeStage{children<complete}", func() {
